@@ -12,7 +12,7 @@ func init() {
 	register(&PropDef{
 		ID:          "C19",
 		Level:       "other",
-		Explanation: "Byte-level completeness is trusted to the OS and libraries; decided is the wiring of the two streams and the key of the log files: LABELS — the writer opened with \"stdout\" reaches (by def-use flow through locals, append, io.MultiWriter) exactly the stdout position of CompileTask and not the stderr position, and vice versa; in the loaded upstream source CompileTask hands its stdout/stderr parameters to the same positions of CompileCommand, which stores them into Job.Stdout/Job.Stderr; every NewPgidExecutor call receives (job.Stdin, job.Stdout, job.Stderr); inside it the stdout/stderr parameters reach the out/err positions of interp.StdIO; the exec handler builds exec.Cmd{Stdout: hc.Stdout, Stderr: hc.Stderr}; the log handler puts the \"stdout\" reader's bytes into the stdout field and the \"stderr\" reader's into stderr; KEY — writer and reader build the path with one function that uses all of (job id, task name, stream); the writer is opened once per task run (not in a loop) with the task's own job-id variable and name; OWNERSHIP — neither Writer, its module callees nor the methods of the type it returns touch a package-level variable (no pooled or shared buffer between log files); MEMBERSHIP — every Reader call of the log handler is dominated by the task-exists edge, which is set only under ReadJob when the job has a task of that name.",
+		Explanation: "Byte-level completeness is trusted to the OS and libraries; decided is the wiring of the two streams and the key of the log files: LABELS — the writer opened with \"stdout\" reaches (by def-use flow through locals, append, io.MultiWriter) exactly the stdout position of CompileTask and not the stderr position, and vice versa; in the loaded upstream source CompileTask hands its stdout/stderr parameters to the same positions of CompileCommand, which stores them into Job.Stdout/Job.Stderr; every NewPgidExecutor call receives (job.Stdin, job.Stdout, job.Stderr); inside it the stdout/stderr parameters reach the out/err positions of interp.StdIO; the exec handler builds exec.Cmd{Stdout: hc.Stdout, Stderr: hc.Stderr}; the log handler puts the \"stdout\" reader's bytes into the stdout field and the \"stderr\" reader's into stderr; KEY — writer and reader build the path with one function that uses all of (job id, task name, stream); the writer is opened once per task run (not in a loop) with the task's own job-id variable and name; IDENTITY — the job-id variable the writers are keyed by is set from the job's own id and every Set of a job-supplied name lies behind the reserved-name test; CLOSED AT END — every Close a log writer reaches is a deferred call of Run (or lies in the opening helper, before any command runs): no command's output is written to a closed file; OWNERSHIP — neither Writer, its module callees nor the methods of the type it returns touch a package-level variable (no pooled or shared buffer between log files); MEMBERSHIP — every Reader call of the log handler is dominated by the task-exists edge, which is set only under ReadJob when the job has a task of that name.",
 		Trusted:     []string{"os.File writes are complete and ordered per descriptor", "mvdan/sh passes StdIO to every command of a script", "upstream executor.Job fields are what the executor reads"},
 		NotDecided:  []string{"completeness/order of bytes", "concurrent writers of different jobs (distinct files by the key rule)"},
 		Check:       checkC19,
@@ -102,6 +102,19 @@ func checkC19(w *World, r *Report) {
 			}
 			okL := sinks[want] && !sinks[other] && (stream == "stdout" || stream == "stderr")
 			r.Check(okL, "labels.run", FuncName(run)+": writer \""+stream+"\" → CompileTask", w.InstrPos(o.at), "reaches the "+stream+" position of CompileTask and not the other stream's", fmt.Sprintf("the writer opened for %q reaches {%s}: expected the %s position of CompileTask only — the two streams are swapped or mixed", stream, sinkList(sinks), stream))
+			// the writer is closed only when the run is over: every Close it reaches is a deferred call of Run,
+			// or sits in a function that is reached only through deferred calls of Run
+			nClose, okClose, badClose := 0, true, ""
+			for _, sk := range w.flowSinks(o.src) {
+				if sk.Kind == "recv" && sk.Name == "invoke:Close" {
+					nClose++
+					if !deferredInRun(w, run, o.call.Parent(), sk.Pos, 0) {
+						okClose = false
+						badClose = w.InstrPos(sk.Pos)
+					}
+				}
+			}
+			r.Check(okClose && nClose > 0, "key.writer-closed-at-end", FuncName(run)+": writer \""+stream+"\" closed when the run is over", w.InstrPos(o.at), "closed only by deferred calls of Run (or by the opening helper itself, before any command runs)", fmt.Sprintf("the log writer is closed at %s, which is not (only) a deferred call of Run (%d close sites): output of the commands that follow is lost", badClose, nClose))
 			// key arguments and once per run
 			okK := strings.Contains(o.jobArg, "arg0.Variables.Get(\"__jobID\")") && o.taskAr == "arg0.Name"
 			r.Check(okK, "key.writer-args", FuncName(run)+": writer \""+stream+"\" key", w.InstrPos(o.at), "opened for (the task's own job-id variable, the task's name, \""+stream+"\")", "the log writer is opened for ("+o.jobArg+", "+o.taskAr+"): output is attributed to another job or task")
@@ -420,6 +433,14 @@ func checkC19(w *World, r *Report) {
 			r.Check(exprs["Writer"] == exprs["Reader"] && exprs["Writer"] != "", "key.same-function", "FileOutputStore: writer and reader paths agree", "-", "both open "+exprs["Writer"], "the writer opens "+exprs["Writer"]+" but the reader opens "+exprs["Reader"]+": what is written cannot be read back")
 		}
 	}
+	// ---- IDENTITY: the job id the writers are opened for is the stage's reserved variable: it is set
+	// from the job's own id and a job-supplied variable cannot replace it
+	if ro := resolveRoles(w); ro.la != nil {
+		checkReservedVariable(w, r, ro)
+	} else {
+		r.Undecided("reserved", "roles", "-", "roles unresolved")
+	}
+	r.Floor("reserved.", 2)
 	// ---- OWNERSHIP: the writer handed out for one (job, task, stream) owns its state — neither Writer,
 	// nor the module constructors it calls, nor the methods of the concrete type it returns touch a
 	// package-level variable (a pooled or shared buffer would let bytes of one stream surface in another file)
@@ -490,4 +511,41 @@ func pathUsesAllKeys(desc string) bool {
 		return strings.Contains(rest, "[arg1,arg2]") && regexp.MustCompile(`"%s[^%"]+%s[^%"]*"`).MatchString(rest)
 	}
 	return concatKeyRe.MatchString(rest)
+}
+
+// deferredInRun: the call at site runs only when Run returns — it is a defer statement of run, or it
+// lies in a function all of whose call sites (depth ≤ 3) are.
+func deferredInRun(w *World, run, opener *ssa.Function, site ssa.Instruction, depth int) bool {
+	if d, ok := site.(*ssa.Defer); ok && d.Parent() == run {
+		return true
+	}
+	f := site.Parent()
+	// the helper that opens the writers may close what it opened when a later open fails: it has
+	// returned before the first command runs
+	if opener != nil && opener != run {
+		for g := f; g != nil; g = g.Parent() {
+			if g == opener {
+				return true
+			}
+		}
+	}
+	if f == run || depth > 3 {
+		return false
+	}
+	n, ok := 0, true
+	for _, g := range w.ModFuncs {
+		allInstrs(g, func(in ssa.Instruction) {
+			c := callCommonOf(in)
+			if c == nil {
+				return
+			}
+			if c.StaticCallee() == f || funcValue(w.Resolve(c.Value)) == f {
+				n++
+				if !deferredInRun(w, run, opener, in, depth+1) {
+					ok = false
+				}
+			}
+		})
+	}
+	return ok && n > 0
 }
